@@ -302,15 +302,34 @@ pub fn run(ctx: &Ctx) -> Report {
             _ => 4,
         };
         let nr = r.usize_in(1, c.max_parts);
-        let input: Vec<(i32, Vec<V>)> = (0..nr)
+        let mut input: Vec<(i32, Vec<V>)> = (0..nr)
             .map(|_| {
                 let k = if ty == 31 { r.below(6) as i32 } else { r.below(2) as i32 };
                 (k, gen_ring(&mut r, &c, dims))
             })
             .collect();
+        // exact-pool regime 1, every fifth case: UTM-like coordinates (large common offset, 1/1024
+        // grid, small rings)
+        if regime == 1 && i % 5 == 1 {
+            let origin = ((r.below(900_000) + 100_000) as f64, (r.below(9_000_000) + 1_000_000) as f64);
+            for (_, ring) in input.iter_mut() {
+                let closed = ring.len() >= 2 && ring[0][0] == ring[ring.len() - 1][0] && ring[0][1] == ring[ring.len() - 1][1];
+                for v in ring.iter_mut() {
+                    v[0] = gen::utm_like(&mut r, origin, 0).to_bits();
+                    v[1] = gen::utm_like(&mut r, origin, 1).to_bits();
+                }
+                if closed {
+                    let f = ring[0];
+                    let n = ring.len();
+                    ring[n - 1][0] = f[0];
+                    ring[n - 1][1] = f[1];
+                }
+            }
+            rep.count("utm_like_cases", 1);
+        }
         // the exact-pool regimes: every third case scaled as a whole by 2^s (tiny and huge rings
         // whose f64 shoelace arithmetic is still exact)
-        let scale: i32 = if regime <= 1 && i % 3 == 2 { r.below(961) as i32 - 480 } else { 0 };
+        let scale: i32 = if regime <= 1 && i % 3 == 2 && !(regime == 1 && i % 5 == 1) { r.below(961) as i32 - 480 } else { 0 };
         let input: Vec<(i32, Vec<V>)> = if scale == 0 {
             input
         } else {
